@@ -616,6 +616,9 @@ class SymFloat:
     def __float__(self):
         raise ModelGap("float() of a symbolic real")
 
+    def __format__(self, spec):
+        return '<sym>'        # only ever used for axis labels / messages
+
     def __int__(self):
         """int() truncates toward zero; the integer part is concretised by forking."""
         if self.nan is not None and bool(mk_bool(self.nan)):
